@@ -159,6 +159,14 @@ def c02(tier, seed):
                             ['--cfg=%s-%s' % (fl, fm), '--scenarios=%d' % (120 * scale), '--readers=3', '--updaters=3',
                              '--gps=120', '--reader-sections=400', '--tun-qs=%d' % qs, '--tun-wait=%d' % wt,
                              '--hook-prob=0.01', '--churn=1', '--reg-handshake=1'] + fargs, {}, cpus=4, timeout=200 * scale))
+        # a futex fallback that becomes sticky after ONE transient ENOSYS can only hurt threads asleep in the kernel at
+        # that very moment: one chance per process, so several short processes
+        if fl in ('memb', 'qsbr'):
+            for k in range(5 if tier == 'quick' else 40):
+                out.append(case('%s-enosys-once-%d' % (fl, k), 'gp', fl, 'plain',
+                                ['--cfg=%s-enosys-once' % fl, '--scenarios=12', '--readers=3', '--updaters=4', '--gps=60',
+                                 '--reader-sections=300', '--tun-qs=1', '--tun-wait=1', '--f-enosys-wait=0.004', '--churn=0'],
+                                {}, cpus=4, timeout=200))
         # single reader / single updater tight loop: the lost wake-up window
         out.append(case('%s-pair' % fl, 'gp', fl, 'plain',
                         ['--cfg=%s-pair' % fl, '--scenarios=%d' % (20 * scale), '--readers=1', '--updaters=1',
